@@ -457,7 +457,9 @@ for b_ in ("noalloc",):
 
 EQ_CASES = ("sharp_s_upper", "sharp_s_lower", "sharp_s_self", "sharp_s_prefix", "mixed_expand", "ligature_fi", "dz_title", "dotted_i",
             "ascii", "longer_query", "shorter_query", "e_acute")
-for b_ in ("alloc", "nounicode"):
+# (build without the unicode tables only: with them one concrete pair did not finish in 40 min / 8 GB - the flatten loop of
+# `flat_map(to_uppercase)` is unwound to the bound with a 1500-entry table search per iteration; C15_b therefore stays missed)
+for b_ in ("nounicode",):
     for c_ in EQ_CASES:
         add(H("dir_entry::verif::eq_case_" + c_, ["C15", "C19"],
               "DirEntry::eq_name on a concrete name pair differing only by case (incl. length-changing Unicode mappings): matches with the "
